@@ -265,6 +265,13 @@ static void refresh_mirror(Inst &I, const CodeView &cv, long from) {
 
 // every buffer other than `cur` must be untouched; all canaries intact
 static void check_memory(Run &R, int ti, int oi, const Op *op, Inst *cur) {
+  {
+    std::string ho = heap_overrun_take();
+    if (!ho.empty() && !R.v.violated) {
+      violate(R, ti, oi, op, "crash", ho);
+      return;
+    }
+  }
   for (size_t t = 0; t < R.tasks.size() && !R.v.violated; t++)
     for (Inst &base : R.tasks[t]->slots)
       for (Inst *I = &base; I && !R.v.violated; I = I->twin) {
